@@ -208,8 +208,12 @@ int main(int argc, char *argv[])
    * the user know there was a problem, so we flush the data
    * ourselves.
    */
-  if (0 != fflush(stdout))
+  if (0 != fflush(stdout) || ferror(stdout))
     {
+      /* ferror() catches writes which failed earlier (and whose
+       * result was not checked at the time, or was reported without
+       * a diagnostic) even when there is nothing left to flush now.
+       */
       perror("stdout");
       exitval = 1;
     }
